@@ -1,4 +1,5 @@
 import CCVerif.Model.SData
+import CCVerif.Spec.SDataCard
 import Driver.Util
 /-! Driver ops for C15 (structured data).  Every op prints `model<TAB>spec`.
 
@@ -159,6 +160,19 @@ def mem (x : Val) (a : List Val) : Bool := a.contains x
 
 end Spec
 
+/-- the shape of a set expression for `LSet.specCard`: enumerations carry the members of the
+*specification* value (`Spec.eval`: merge-sorted, deduplicated), lazy sets stay symbolic; the model's
+`evalL` / `decartian` / `insert` are not involved. -/
+partial def specShape : Ex → Option LSet
+  | .node 'P' [b] => do pure (.pow (← specShape b))
+  | .node 'X' fs => do
+    if fs.length < 2 then none
+    pure (.prod (← fs.mapM specShape))
+  | e => do
+    if !isSetEx e then none
+    let xs ← Spec.elems (← Spec.eval e)
+    pure (.enum xs)
+
 /-! ### stateless ops -/
 
 def showCmpSpec (a b : Val) : String :=
@@ -263,7 +277,9 @@ def handle (args : List String) : String :=
   | ["card", a] =>
     -- `Cardinality()` and `IsEmpty()` of a (lazy) set, never iterated. Model: the transcription of UpdateSize with
     -- its saturation. Specification: emptiness is structural (a power set is never empty, a product is empty iff a
-    -- factor is, an enumeration iff it has no member); the number itself is specified only up to SET_INFINITY.
+    -- factor is, an enumeration iff it has no member); the number is the set-theoretic cardinality (`LSet.specCard`
+    -- over the shape built by `specShape`: distinct members of an enumeration, 2^n, product of the factor sizes)
+    -- wherever `C15.card_exact` applies, `x` (unspecified) outside that range.
     let m := orStuck do
       let l ← evalL (← parse a); let c ← l.card
       pure s!"{c} {bit (c == 0)}"
@@ -275,8 +291,8 @@ def handle (args : List String) : String :=
       | _ => none
     let s := orNA do
       let e ← parse a; let em ← emptySpec e
-      let l ← evalL e
-      let exact : Option Nat := match l with | .enum xs => some xs.length | _ => none
+      -- an empty set has 0 members (`C15.card_zero_iff_empty`, `C15.factory_decartian_spec`)
+      let exact : Option Nat := if em then some 0 else (specShape e).bind LSet.specCard
       pure s!"{(exact.map toString).getD "x"} {bit em}"
     s!"{m}\t{s}"
   | ["has", a, x] =>
